@@ -38,6 +38,15 @@ TVARIANT = {
     "x/svc/s.go": "package svc\n\nimport \"m/core\"\n\nfunc Run() {\n\tcore.Reset()\n\t_ = core.K{X: 1}\n}\n",
     "y/svc/s.go": "package svc\n\nimport \"m/core\"\n\nfunc Run() {\n\tcore.Reset()\n\t_ = core.K{X: 2}\n}\n",
     "zo/o.go": "package zo\n\nimport \"m/core\"\n\nfunc Run() {\n\tcore.Reset()\n\t_ = core.K{X: 3}\n}\n",
+    # generated code: a //line directive maps a diagnostic into a file that cannot be read (message without excerpt), next to
+    # ordinary diagnostics rendered later in the same process
+    "gen/g.go": "package gen\n\nimport \"m/lib\"\n\n//line grammar.y:40\nfunc Use(t *lib.T) {\n\tt.X = 5\n}\n",
+    # several files of one package with @ignore comments for the same code, a covered violation in each, one uncovered at the end
+    "multi/f1.go": "package multi\n\nimport \"m/lib\"\n\nfunc f1(t *lib.T) {\n\tt.X = 11 // @ignore IMM01\n}\n",
+    "multi/f2.go": "package multi\n\nimport \"m/lib\"\n\nfunc f2(t *lib.T) {\n\t// @ignore IMM01\n\tt.X = 12\n}\n",
+    "multi/f3.go": "package multi\n\nimport \"m/lib\"\n\n// @ignore IMM01\nfunc f3(t *lib.T) {\n\tt.X = 13\n}\n",
+    "multi/f4.go": "package multi\n\nimport \"m/lib\"\n\nfunc f4(t *lib.T) {\n\tt.X = 14 // @ignore IMM01\n}\n",
+    "multi/f5.go": "package multi\n\nimport \"m/lib\"\n\nfunc f5(t *lib.T) {\n\tt.X = 15 // @ignore IMM01\n\tt.X = 16\n}\n",
     "other/o.go": "package other\n\n// O is unrelated.\n// @immutable\ntype O struct{ X int }\n\nfunc f(o *O) {\n\to.X = 4\n}\n",
 }
 
@@ -166,6 +175,39 @@ def run(ctx):
         diff = [k for k in outs[0] if outs[0][k] != outs[1].get(k)]
         ctx.violation("two identical parallel runs produced different diagnostics for %s" % diff[:3], {"kind": "nondeterminism", "programs": diff[:10]})
 
+    # (b2) position bases: the drivers parse the files of a package concurrently, so a later file of the package may get the lower
+    # position base.  Programs with `@ignore` comments in both files of the using package (Scope.tla scenarios with two comments)
+    # analysed with the files added to the FileSet in reverse order must give what the specification says.
+    import gen_scope
+    from checks import c07
+    scs, _r = progcheck.tlc_scenarios(ctx, "Scope", c07.cfg("quick"), "c11_scope")
+    two = [sc for sc in scs if sc.get("slot2", "none") != "none" and sc["slot"] in ("G0", "D4", "S41", "T41", "D5", "TD5", "TF4")]
+    if not two:
+        raise vlib.ToolError("no Scope scenario with comments in both files")
+    items = []
+    for i, sc in enumerate(progcheck.sample(two, 1500 if thorough else 300, ctx.seed)):
+        prog, exp, _pos = gen_scope.build_scope(sc, "C11_bases_%d" % i)
+        items.append((prog, exp, sc))
+    res = proglib.run_vh(ctx, [it[0] for it in items], revbases=True)
+    for prog, exp, sc in items:
+        r = res[prog["id"]]
+        nrun += 1
+        code = gen_scope.CODE.get(sc["kind"], sc["kind"])
+        got = None if r.get("fail") or r.get("err") else {k for k in proglib.keyset(r["diags"]) if k[2] == code}
+        want = {k for k in exp if k[2] == code}
+        if got != want and len(ctx.violations) < 3:
+            r1 = proglib.run_vh(ctx, [prog], revbases=True)[prog["id"]]
+            r0 = proglib.run_vh(ctx, [prog])[prog["id"]]
+            g1 = None if r1.get("fail") else {k for k in proglib.keyset(r1["diags"]) if k[2] == code}
+            g0 = None if r0.get("fail") else {k for k in proglib.keyset(r0["diags"]) if k[2] == code}
+            if g1 == want:
+                raise vlib.ToolError("base-order mismatch did not reproduce: %s" % {k: sc[k] for k in ("kind", "slot", "slot2", "list")})
+            ctx.violation("files of the package added to the FileSet in reverse order (a possible outcome of concurrent parsing): %s comment in %s and %s, "
+                          "expected %s, observed %s; with ascending bases: %s" % (sc["kind"], sc["slot"], sc["slot2"], sorted(want), sorted(g1) if g1 is not None else r1.get("fail", "")[:200],
+                                                                               sorted(g0) if g0 is not None else "failed"),
+                          {"kind": "program", "program": prog, "expected": sorted(want), "observed": sorted(g1 or []), "cats": [], "revbases": True,
+                           "scenario": {k: sc[k] for k in ("kind", "slot", "slot2", "list")}})
+
     # (c) black box: the unmodified binary, repeated / GOMAXPROCS / -debug=p / permuted arguments / unrelated packages
     exe = ctx.binary("gogreement")
     v = gen_xpkg.variant(rng)
@@ -189,7 +231,9 @@ def run(ctx):
     if fail:
         ctx.violation("black-box run failed: %s" % fail, {"kind": "blackbox", "args": ["./..."]})
         base = {}
-    pk = ["./d", "./u", "./w", "./lib/...", "./app", "./zapp", "./other", "./core", "./x/svc", "./y/svc", "./zo"]
+    pk = ["./d", "./u", "./w", "./lib/...", "./app", "./zapp", "./other", "./core", "./x/svc", "./y/svc", "./zo", "./gen", "./multi"]
+    if len(base.get("multi", ())) != 1 or not base.get("gen"):
+        raise vlib.ToolError("the black-box module does not show the expected diagnostics in m/multi (1) and m/gen: %s %s" % (base.get("multi"), base.get("gen")))
     if not base.get("zo"):
         raise vlib.ToolError("the black-box module reports nothing in m/zo (vacuous)")
     variants = [(["./..."], None, ()), (["./..."], {"GOMAXPROCS": "1"}, ()), (["./..."], {"GOMAXPROCS": "16"}, ()), (["./..."], None, ("-debug=p",))]
@@ -198,7 +242,7 @@ def run(ctx):
         rng.shuffle(pm)
         variants.append((pm, None, ()))
     variants.append((list(reversed(pk)), None, ()))
-    for sub in (["./y/svc"], ["./x/svc"], ["./zo"], ["./y/svc", "./x/svc"], ["./y/svc", "./zo"], ["./zo", "./x/svc", "./y/svc"], ["./lib/..."], ["./lib/...", "./app"], ["./lib/...", "./zapp"], ["./w"], ["./u", "./other"], ["./lib/...", "./other"]):
+    for sub in (["./gen"], ["./gen", "./app"], ["./app", "./gen", "./zapp"], ["./multi"], ["./y/svc"], ["./x/svc"], ["./zo"], ["./y/svc", "./x/svc"], ["./y/svc", "./zo"], ["./zo", "./x/svc", "./y/svc"], ["./lib/..."], ["./lib/...", "./app"], ["./lib/...", "./zapp"], ["./w"], ["./u", "./other"], ["./lib/...", "./other"]):
         variants.append((sub, None, ()))
         variants.append((sub, None, ("-debug=p",)))
     if thorough:
@@ -217,7 +261,7 @@ def run(ctx):
             # every package that is named in this run must get exactly the diagnostics of the reference run
             named_dirs = set()
             for a in args:
-                named_dirs |= {"d", "u", "w", "lib", "app", "zapp", "other", "core", "x", "y", "zo"} if a == "./..." else {a.strip("./").split("/")[0]}
+                named_dirs |= {"d", "u", "w", "lib", "app", "zapp", "other", "core", "x", "y", "zo", "gen", "multi"} if a == "./..." else {a.strip("./").split("/")[0]}
             for dpk in named_dirs:
                 if got.get(dpk, set()) != base.get(dpk, set()):
                     g2, f2 = bb(args, env, flags)
